@@ -31,11 +31,15 @@ pub struct Cmd {
     /// stdin is this file or directory (opened read-only) instead of StdinSpec
     #[serde(default)]
     pub stdin_path: Option<String>,
+    /// run the child under RLIMIT_FSIZE = this many bytes with SIGXFSZ ignored: a write crossing the limit is
+    /// short, the next one fails with EFBIG (like a quota or a nearly full disk)
+    #[serde(default)]
+    pub fsize_limit: Option<u64>,
 }
 
 impl Cmd {
     pub fn new(args: &[&str]) -> Cmd {
-        Cmd { args: args.iter().map(|a| a.as_bytes().to_vec()).collect(), env: vec![], stdin: StdinSpec::Null, stdout_file: None, stdout_closed_pipe: false, stdin_path: None }
+        Cmd { args: args.iter().map(|a| a.as_bytes().to_vec()).collect(), env: vec![], stdin: StdinSpec::Null, stdout_file: None, stdout_closed_pipe: false, stdin_path: None, fsize_limit: None }
     }
     pub fn env(mut self, k: &str, v: &str) -> Cmd {
         self.env.push((k.to_string(), v.to_string()));
@@ -184,7 +188,18 @@ pub fn run_limit(cmd: &Cmd, cwd: &Path, limit: Duration) -> Out {
         }
     }
     c.stderr(Stdio::piped());
-    // no pre_exec: kv itself runs in its own session without a controlling terminal (see detach_tty),
+    if let Some(lim) = cmd.fsize_limit {
+        use std::os::unix::process::CommandExt;
+        unsafe {
+            c.pre_exec(move || {
+                let rl = libc::rlimit { rlim_cur: lim, rlim_max: lim };
+                libc::setrlimit(libc::RLIMIT_FSIZE, &rl);
+                libc::signal(libc::SIGXFSZ, libc::SIG_IGN);
+                Ok(())
+            });
+        }
+    }
+    // no pre_exec otherwise: kv itself runs in its own session without a controlling terminal (see detach_tty),
     // children inherit that, so /dev/tty can never be opened and std can use the fast posix_spawn path
     let t0 = Instant::now();
     let mut child = match c.spawn() {
